@@ -82,10 +82,10 @@ theorem members_names {E : Env} {cfg : Cfg} {o : EnumObj} (P : List Char → Pro
 
 /-! ### quote stripping -/
 
-/-- a string `find_member` handles faithfully: non-empty, no quote at either end, nothing the
-escape table rewrites -/
+/-- a string `find_member` handles faithfully: no quote at either end, nothing the escape table
+rewrites (the empty string is one of them) -/
 def plainStr (s : List Char) : Bool :=
-  !s.isEmpty && !(s.head?.any isQ) && !(s.getLast?.any isQ) && (translate enumTable s == s)
+  !(s.head?.any isQ) && !(s.getLast?.any isQ) && (translate enumTable s == s)
 
 theorem dropWhile_eq_self {p : Char → Bool} {l : List Char} (h : l.head?.any p = false) :
     l.dropWhile p = l := by
@@ -100,8 +100,10 @@ theorem stripQ_plain {s : List Char} (h1 : s.head?.any isQ = false) (h2 : s.getL
   unfold stripQ
   rw [dropWhile_eq_self h1, dropWhile_eq_self (by simpa [List.head?_reverse] using h2), List.reverse_reverse]
 
-theorem stripQ_wrapped {s : List Char} (hne : s ≠ []) (h1 : s.head?.any isQ = false)
+theorem stripQ_wrapped {s : List Char} (h1 : s.head?.any isQ = false)
     (h2 : s.getLast?.any isQ = false) : stripQ ('\'' :: s ++ ['\'']) = s := by
+  by_cases hne : s = []
+  · subst hne; decide
   unfold stripQ
   have hq : isQ '\'' = true := by decide
   have e1 : ('\'' :: s ++ ['\'']).dropWhile isQ = s ++ ['\''] := by
@@ -114,16 +116,16 @@ theorem stripQ_wrapped {s : List Char} (hne : s ≠ []) (h1 : s.head?.any isQ = 
     dropWhile_eq_self (by simpa [List.head?_reverse] using h2), List.reverse_reverse]
 
 theorem plainStr_spec {s : List Char} (h : plainStr s = true) :
-    s ≠ [] ∧ s.head?.any isQ = false ∧ s.getLast?.any isQ = false ∧ translate enumTable s = s := by
+    s.head?.any isQ = false ∧ s.getLast?.any isQ = false ∧ translate enumTable s = s := by
   simp only [plainStr, Bool.and_eq_true, Bool.not_eq_eq_eq_not, Bool.not_true, beq_iff_eq] at h
-  obtain ⟨⟨⟨h1, h2⟩, h3⟩, h4⟩ := h
-  exact ⟨by intro hs; subst hs; simp at h1, h2, h3, h4⟩
+  obtain ⟨⟨h2, h3⟩, h4⟩ := h
+  exact ⟨h2, h3, h4⟩
 
 theorem strip_member_plain {t : List Char} (h : plainStr t = true) :
-    stripQ (memberDefault (.str t)).strOrEmpty = t := by
-  obtain ⟨hne, h1, h2, h3⟩ := plainStr_spec h
-  simp only [memberDefault, Default.strOrEmpty, quoted, h3]
-  exact stripQ_wrapped hne h1 h2
+    stripQ (memberDefault (.str t)).pyStr = t := by
+  obtain ⟨h1, h2, h3⟩ := plainStr_spec h
+  simp only [memberDefault, Default.pyStr, quoted, h3]
+  exact stripQ_wrapped h1 h2
 
 
 /-! ### `__set_default_enum_member` over a whole run (heap of `Member` objects) -/
@@ -196,7 +198,7 @@ theorem applyStep_closed (h : Heap) (s : Step) :
   cases hd : s.default with
   | scalar v r =>
     simp only
-    by_cases hfz : v.falsy = true
+    by_cases hfz : v.isNull = true
     · simp [hfz]
     · simp only [hfz, Bool.false_eq_true, if_false]
       cases hf : findMember s.members v r with
